@@ -24,6 +24,7 @@ type SegProj struct {
 	IxVer       int
 	IxBase      bool // index offsets, positions and key hashes equal the derived index
 	IxTs        bool // index timestamps equal the derived (monotone from 0) timestamps
+	IxRun       bool // index timestamps are a running maximum over the segment's message times (from some carried start)
 	LogSize     int64
 	IxSize      int64
 	Junk        string
@@ -106,6 +107,15 @@ func projectSeg(dir string, base int64, times, keys bool) SegProj {
 	der := refcodec.DeriveIndex(lf.Recs, times, keys, 0)
 	s.IxBase = ix.Junk == "" && len(ix.Items) == len(der)
 	s.IxTs = s.IxBase
+	s.IxRun = ix.Junk == "" && len(ix.Items) == len(lf.Recs)
+	if s.IxRun && times {
+		for i, r := range lf.Recs {
+			ts := ix.Items[i].Timestamp
+			if ts < r.Micros || (i > 0 && ts != max(r.Micros, ix.Items[i-1].Timestamp)) {
+				s.IxRun = false
+			}
+		}
+	}
 	if s.IxBase {
 		for i := range der {
 			if ix.Items[i].Offset != der[i].Offset || ix.Items[i].Position != der[i].Position || ix.Items[i].KeyHash != der[i].KeyHash {
@@ -123,7 +133,7 @@ func segsJSON(segs []SegProj) []map[string]any {
 	out := make([]map[string]any, 0, len(segs))
 	for _, s := range segs {
 		out = append(out, map[string]any{"base": s.Base, "ver": s.Ver, "offs": s.Offs, "parsed": s.Parsed, "exact": s.Exact,
-			"firstisbase": s.FirstIsBase, "backtoback": s.Parsed, "ixpresent": s.IxPresent, "ixbase": s.IxBase, "ixts": s.IxTs,
+			"firstisbase": s.FirstIsBase, "backtoback": s.Parsed, "ixpresent": s.IxPresent, "ixbase": s.IxBase, "ixts": s.IxTs, "ixrun": s.IxRun,
 			"ixver": s.IxVer, "junk": s.Junk, "ixjunk": s.IxJunk})
 	}
 	return out
